@@ -320,3 +320,57 @@ def h2_reset(at: int, code: int, retries: int, bb: bool) -> None:
         if pol.done:
             P.check(not o.ok, "failure-after-request-bytes-were-written-is-reported", lambda: f"{sig}:{o.kind()}")
             P.check(o.documented(), "failure-reported-with-documented-type", lambda: f"{sig}:{o.kind()}", prop="C15")
+
+
+TEMPTING = (200, 408, 421, 425, 429, 503, 100)  # (100: the server only ever sends an interim response, then hangs up)
+
+
+@harness(
+    "C14", "h1_statuses",
+    quick=[{"flavour": fl} for fl in ("sync", "async")],
+    example=dict(st=1, reuse=True, retries=1, close=False),
+    require=("reused", "fresh"),
+    timeout={"quick": 200, "thorough": 400},
+    symbolic="the status the server answers with (200, 408, 421, 425, 429, 503, or only an interim 100 before it hangs up), whether the request re-uses a keep-alive connection, retries in 0..2, whether the answer carries Connection: close",
+    bounds="one POST with a body per run after an optional warm-up request, max_connections=2",
+    outside="other status codes",
+    stubs=("HTTP/1.1 server model answering with the scripted status",),
+)
+def h1_statuses(st: int, reuse: bool, retries: int, close: bool) -> None:
+    """
+    pre: 0 <= st <= 6 and 0 <= retries <= 2
+    post: _
+    """
+    status = pick(st, TEMPTING)
+    ru, rr, cl = bool(reuse), ladder(retries, 0, 2), bool(close)
+    with concrete(status, ru, rr, cl):
+        from ..vnet.servers import Resp
+
+        def responder(req: typing.Any, n: int) -> Resp:
+            if TOK not in req.target:
+                return Resp(body=b"warm")
+            if status == 100:
+                return Resp(status=200, interim=[(100, b"Continue", [])], truncate_at=25)
+            return Resp(status=status, reason=b"Scripted", headers=[(b"Connection", b"close")] if cl else [], body=b"answer")
+
+        is_async = shard("flavour", "sync") == "async"
+        su = Setup("h11", is_async, max_connections=2, retries=rr, responder=responder)
+        ext = {"timeout": {"pool": 0, "read": 50, "write": 50, "connect": 50}}
+        if ru:
+            w = su.api.request(su.pool, "GET", su.url("warm"), extensions=ext)
+            if not P.check(w.ok, "warm-up", "once:h1st:warmup"):
+                return
+        P.cover("reused" if ru else "fresh")
+        o = su.api.request(su.pool, "POST", su.url(TOK.decode()), content=b"payload", extensions=ext)
+        heads = _heads_seen(su, TOK)
+        touched = _socks_with_bytes(su, TOK)
+        sig = f"once:h1:status{status}"
+        P.note(outcome=o.kind(), heads=heads, touched=touched)
+        P.reached()
+        # the server answered (or at least received) the request: whatever it said, the request is not sent again
+        P.check(len(heads) <= 1 and len(touched) <= 1, "request-bytes-written-to-at-most-one-connection",
+                lambda: f"{sig}:sent-{max(len(heads), len(touched))}-times")
+        if status != 100:
+            P.check(o.ok and o.value.status == status, "the-server's-answer-reaches-the-caller", lambda: f"{sig}:{o.kind()}:{o.value.status if o.ok else None}")
+        else:
+            P.check(not o.ok, "failure-after-request-bytes-were-written-is-reported", lambda: f"{sig}:{o.kind()}")
